@@ -14,6 +14,8 @@ use std::collections::{BTreeSet, HashMap};
 use std::net::{IpAddr, SocketAddr};
 
 const TYPES3: [&str; 3] = ["_http._tcp.local.", "_ipp._tcp.local.", "_nobody._udp.local."];
+/// what can be browsed: the first two types and a subtype of the first
+const BROWSABLE: [&str; 3] = ["_http._tcp.local.", "_ipp._tcp.local.", "_printer._sub._http._tcp.local."];
 const HOSTS2: [&str; 2] = ["Printer-7.local.", "scanner.local."];
 
 #[derive(Clone, Debug, Serialize, Deserialize)]
@@ -32,6 +34,9 @@ pub enum Traffic {
     Hostile { seed: u64 },
     /// subtype PTRs of distinct subtypes
     Subtypes { ty: usize, ttl: u32 },
+    /// distinct instances announced the way a question for the browsable subtype is answered
+    /// (subtype PTR, SRV, TXT, address; no PTR of the base type)
+    SubAnnounce { ttl: u32 },
 }
 
 #[derive(Clone, Debug, Serialize, Deserialize)]
@@ -173,15 +178,25 @@ pub fn check(case: &Case, ctx: &mut CaseCtx) {
         dm.set_now(now);
         match op {
             Op::Browse { ty } => {
-                if dm.browse(TYPES3[*ty % 2]).is_ok() {
-                    browsed.insert(*ty % 2);
+                if dm.browse(BROWSABLE[*ty % 3]).is_ok() {
+                    browsed.insert(*ty % 3);
                 }
             }
             Op::StopBrowse { ty } => {
-                if dm.stop_browse(TYPES3[*ty % 2]).is_ok() {
-                    browsed.remove(&(*ty % 2));
+                if dm.stop_browse(BROWSABLE[*ty % 3]).is_ok() {
+                    browsed.remove(&(*ty % 3));
                     // what was cached for it is forgotten
-                    needed_now.retain(|x| x.2 != *ty % 2);
+                    needed_now.retain(|x| x.2 != *ty % 3);
+                    w.settle();
+                    let now = w.now;
+                    needed_now.retain(|x| x.0 > now);
+                    noptr_now.retain(|x| x.0 > now);
+                    copies_now.retain(|x| x.0 > now);
+                    let n: u64 = needed_now.iter().map(|x| x.1).sum();
+                    let np: u64 = noptr_now.iter().map(|x| x.1).sum();
+                    let cp: u64 = copies_now.iter().map(|x| x.1).sum();
+                    metric_checks += 1;
+                    probe(&mut w, &format!("after stop_browse({})", BROWSABLE[*ty % 3]), n, np, cp, (browsed.len() + searched.len()) as u64, registered.len() as u64 * case.ifs.len() as u64 * 2, unrelated_packets, &mut worst, &mut soft, &mut soft2, &mut samples);
                 }
             }
             Op::Resolve { host, timeout_ms } => {
@@ -242,6 +257,21 @@ pub fn check(case: &Case, ctx: &mut CaseCtx) {
                             }
                             ttl_ms = t as u64 * 1000;
                             peer::response(sv.announcement(t.min(120), t), vec![])
+                        }
+                        Traffic::SubAnnounce { ttl } => {
+                            let mut sv = mk_svc(0, seq);
+                            sv.sub = Some(b"_printer".to_vec());
+                            sv.inst = format!("s{seq}").into_bytes();
+                            let t = (*ttl).max(2);
+                            if browsed.contains(&2) {
+                                // (the metrics count the instance's subtype entry as well)
+                                needed = 5;
+                                needed_for = 2;
+                            }
+                            ttl_ms = t as u64 * 1000;
+                            let mut recs = sv.announcement(t.min(120), t);
+                            recs.retain(|r| !(r.rtype == T_PTR && r.name == sv.ty));
+                            peer::response(recs, vec![])
                         }
                         Traffic::NoPtr { ttl } => {
                             let sv = mk_svc(2, seq);
@@ -381,7 +411,7 @@ pub fn check(case: &Case, ctx: &mut CaseCtx) {
         let dm = &mut w.daemons[di];
         dm.set_now(now);
         for t in browsed.iter() {
-            let _ = dm.stop_browse(TYPES3[*t]);
+            let _ = dm.stop_browse(BROWSABLE[*t]);
         }
         for h in searched.iter() {
             // (a search that has a timeout is left to end by it)
@@ -472,15 +502,16 @@ fn traffic() -> BoxedStrategy<Traffic> {
         2 => (0usize..4, ttl.clone()).prop_map(|(host, ttl)| Traffic::HostAddr { host, ttl }),
         1 => Just(Traffic::Queries),
         2 => any::<u64>().prop_map(|seed| Traffic::Hostile { seed }),
-        1 => (0usize..3, ttl).prop_map(|(ty, ttl)| Traffic::Subtypes { ty, ttl }),
+        1 => (0usize..3, ttl.clone()).prop_map(|(ty, ttl)| Traffic::Subtypes { ty, ttl }),
+        2 => ttl.prop_map(|ttl| Traffic::SubAnnounce { ttl }),
     ]
     .boxed()
 }
 
 pub fn strategy() -> BoxedStrategy<Case> {
     let op = prop_oneof![
-        3 => (0usize..2).prop_map(|ty| Op::Browse { ty }),
-        2 => (0usize..2).prop_map(|ty| Op::StopBrowse { ty }),
+        3 => (0usize..3).prop_map(|ty| Op::Browse { ty }),
+        2 => (0usize..3).prop_map(|ty| Op::StopBrowse { ty }),
         2 => (0usize..2, prop::option::weighted(0.4, prop_oneof![Just(500u64), Just(5000)])).prop_map(|(host, timeout_ms)| Op::Resolve { host, timeout_ms }),
         1 => (0usize..2).prop_map(|host| Op::StopResolve { host }),
         1 => (0usize..2).prop_map(|inst| Op::Register { inst }),
@@ -509,7 +540,7 @@ pub fn run(tier: Tier) -> i32 {
         &mut agg,
         &Part {
             name: "traffic",
-            rule: "1-8 operations: browses / host name searches / registrations started and stopped, floods of 1-1500 datagrams (announcements of browsed and never-browsed types with distinct instance names, SRV/TXT/A/NSEC of distinct names without a PTR, one instance flapping between announcement and goodbye, addresses of searched and of strange host names, queries and probes for distinct names, the C01 hostile datagram families, subtype PTRs of distinct subtypes; TTL 2 s..75 min; back to back or 1 ms..1 s apart) and pauses up to an hour; the metrics are read after every flood and at rest; non-trivial = a flood took place",
+            rule: "1-8 operations: browses / host name searches / registrations started and stopped, floods of 1-1500 datagrams (announcements of browsed and never-browsed types with distinct instance names, SRV/TXT/A/NSEC of distinct names without a PTR, one instance flapping between announcement and goodbye, addresses of searched and of strange host names, queries and probes for distinct names, the C01 hostile datagram families, subtype PTRs of distinct subtypes; TTL 2 s..75 min; back to back or 1 ms..1 s apart) and pauses up to an hour; the metrics are read after every flood, after every stop_browse and at rest; non-trivial = a flood took place",
             cases: scale(tier.pick(2_500, 80_000)),
             max_shrink_iters: 300,
             strategy: &strategy,
